@@ -39,8 +39,10 @@ one `drain`; `C15_server_session` / `C15_client_session` extend each hop to ANY 
 `handle_input` minus the acknowledgement step (`C15_*_input_is_drain`), and acknowledgements are a
 function of the call sizes (C17) that raise only acknowledgement events at the peer.  NOT a theorem:
 the workflow with acknowledgement packets interleaved (the peer's handling of an Ack is a no-op on
-every field the workflow reads, but the composition is not stated), and metadata items end to end (the
-f32 ↔ f64 casts of the frame rate are validated by correspondence only).  The model fixes one
+every field the workflow reads, but the composition is not stated).  Metadata items: `C02_publish_metadata_item`,
+`C02_play_metadata_item` — exactly one metadata event carrying the sender's metadata, for every metadata
+the Rust type can hold except a frame rate that is a signalling NaN (which `as f64 as f32` quiets, as the
+hardware does): `C02_metadata_trip`, through `F64.toU32_ofU32` and `F64.toF32_ofF32`.  The model fixes one
 enumeration order for each AMF0 object the sessions build; the real `HashMap` order is arbitrary and
 every reader looks properties up by name (C04 holds for every order).  The composition is also decided
 on the implementation by the `interop` family: real ClientSession ↔ real ServerSession under seeded
@@ -51,6 +53,7 @@ import Rml.Props.C10
 import Rml.Lemmas.Interop
 import Rml.Props.C15
 import Rml.Lemmas.Workflow
+import Rml.Lemmas.WfMeta
 namespace Rml.C02
 open Rml Rml.Chunk Rml.Amf0 Rml.Msgs Rml.Sess
 
@@ -319,5 +322,32 @@ def isDemoResult : Option (List Srv.Res) → Bool
   | _ => false
 
 example : isDemoResult demoRun = true := by decide +kernel
+
+/-! ### metadata items -/
+open Rml.Meta
+
+/-- what `apply_metadata_values` reads back from the property map `publish_metadata` / `send_metadata` build -/
+theorem C02_metadata_trip (m : Metadata) (hw : MetaWF m) : applyMetadata (metadataProps m) = m :=
+  applyMetadata_metadataProps m hw
+
+theorem C02_publish_metadata_item {c c1 : Cli.State} {v : Srv.State} {sid : Nat} {app key : Bytes} {mode : Srv.PublishMode}
+    {n1 n2 : Nat} {m : Metadata} {r : Cli.Res}
+    (hr : PublishReady c v sid app key mode) (hw : MetaWF' m) (h : Cli.publishMetadata c n1 m = (c1, .ok r)) :
+    ∃ p v1, r = .out p ∧ SrvPart.drain v n2 p.bytes = (v1, .ok [.ev (.metadataChanged app key m)]) ∧
+      PublishReady c1 v1 sid app key mode :=
+  publish_metadata_item hr hw h
+
+theorem C02_play_metadata_item {c : Cli.State} {v v1 : Srv.State} {sid : Nat} {app key : Bytes}
+    {n1 n2 : Nat} {m : Metadata} {p : Ser.Packet}
+    (hr : PlayReady c v sid app key) (hw : MetaWF' m) (h : Srv.sendMetadata v n1 sid m = (v1, .ok p)) :
+    ∃ c1, CliPart.drain c n2 p.bytes = (c1, .ok [.ev (.metadata m)]) ∧ PlayReady c1 v1 sid app key :=
+  play_metadata_item hr hw h
+
+-- non-vacuity: a metadata value with every kind of field set meets `MetaWF'`
+example : MetaWF' { videoWidth := some 1920, videoFrameRate := some 0x41F00000, audioIsStereo := some true, encoder := some (str "x") } := by
+  refine ⟨⟨?_, ?_, ?_, ?_, ?_, ?_, ?_, ?_, ?_⟩, ?_⟩ <;> intro x h <;> simp at h
+  · omega
+  · subst h; exact ⟨by decide, Or.inl (by decide)⟩
+  · subst h; decide
 
 end Rml.C02
